@@ -11,10 +11,12 @@ import (
 	"verifharness/internal/vp"
 )
 
+func init() { bigBufLen = 5 << 30 }
+
 // hugeProp: the numerical corners of the configuration.  Limits at and around
 // 2^31, 2^32, 2^63 and the maximum uint, "unlimited" (0) limits, and values
-// that are slices of one shared 1 GiB buffer, so that the accounted total
-// crosses 2^32 bytes with a handful of entries.
+// that are slices of one shared untouched 5 GiB buffer, so that the accounted
+// total crosses 2^32 bytes with a handful of entries or with a single one.
 var hugeProp = vp.Register(vp.Prop[Case]{
 	Kind: "c09.huge", Base: 3000,
 	Gen: func(t *rapid.T) Case {
@@ -37,9 +39,9 @@ var hugeProp = vp.Register(vp.Prop[Case]{
 				case 0:
 					o.Val = rapid.SliceOfN(rapid.Byte(), 0, 6).Draw(t, "val")
 				case 1:
-					o.Big = bigBufLen
+					o.Big = 1 << 30
 				default:
-					o.Big = rapid.SampledFrom([]int{1 << 29, 1<<30 - 1, 1<<30 - 8, 3 << 28, 1 << 20}).Draw(t, "big")
+					o.Big = rapid.SampledFrom([]int{1 << 29, 1<<30 - 1, 1<<30 - 8, 3 << 28, 1 << 20, 1<<32 - 2, 1 << 32, 1<<32 + 1, 1<<32 + 5, 9 << 29, 5 << 30}).Draw(t, "big")
 				}
 			}
 			c.Ops = append(c.Ops, o)
@@ -59,6 +61,12 @@ var hugeProp = vp.Register(vp.Prop[Case]{
 			vp.Class("huge:accounted-total-above-2^32")
 			vp.NonTrivialStr("c09.huge", fmt.Sprintf("%+v", c))
 			vp.Sample("huge", c)
+		}
+		for _, o := range c.Ops {
+			if o.Kind == "set" && o.Big+len(o.Key) >= 1<<32 {
+				vp.Class("huge:single-element-of-2^32-bytes-or-more")
+				break
+			}
 		}
 		if c.MaxSize == 0 && peak > 1<<32 {
 			vp.Class("huge:unlimited-size-above-2^32")
